@@ -5,7 +5,7 @@
 From Coq Require Import ZArith List Bool NArith.
 Import ListNotations.
 Require Import PV.Options.Base PV.Options.Parse.
-Require Import PV.Proofs.OptionsSort PV.Proofs.OptionsLookup PV.Proofs.OptionsParse PV.Proofs.OptionsMain.
+Require Import PV.Proofs.OptionsSort PV.Proofs.OptionsLookup PV.Proofs.OptionsParse PV.Proofs.OptionsMain PV.Proofs.OptionsInherit.
 Require Import PV.Gen.Options.
 
 (* lookup = value of the first applicable instance of minimal (not cli, priority, -len prefix) *)
@@ -112,6 +112,49 @@ Theorem C18_enabled_for_a_module_enabled_anywhere : forall files cli d mp v,
   effective true files cli d mp = Some (Some v) -> v <> 0%Z -> effective_anywhere files cli d = Some true.
 Proof. exact enabled_for_a_module_enabled_anywhere. Qed.
 Print Assumptions C18_enabled_for_a_module_enabled_anywhere.
+
+(* inheritance down the module tree: a setting for a package applies to all its submodules ... *)
+Theorem C18_setting_applies_to_submodules : forall (i : inst Z) mp rest,
+  is_applicable_to i mp = true -> is_applicable_to i (mp ++ rest) = true.
+Proof. exact (@applicable_to_submodules Z). Qed.
+Print Assumptions C18_setting_applies_to_submodules.
+
+(* ... the lookup sees the module path only through the applicability tests ... *)
+Theorem C18_lookup_depends_on_applicability : forall (L : list (inst Z)) mp mp',
+  (forall i, In i L -> is_applicable_to i mp = is_applicable_to i mp') ->
+  get_value_from_instances L mp = get_value_from_instances L mp'.
+Proof. exact (@lookup_depends_on_applicability Z). Qed.
+Print Assumptions C18_lookup_depends_on_applicability.
+
+(* ... so, whatever the files and the command line say, a submodule for which no section names a path
+   longer than its ancestor mp has exactly mp's effective value (nothing leaks in from sibling sections) *)
+Theorem C18_submodule_inherits : forall is_code files cli d mp rest l,
+  parse_main is_code files = Ok l ->
+  (forall i, In i l -> is_applicable_to i (mp ++ rest) = true -> length (applicable_to i) <= length mp) ->
+  effective is_code files cli d (mp ++ rest) = effective is_code files cli d mp.
+Proof. exact submodule_inherits. Qed.
+Print Assumptions C18_submodule_inherits.
+
+Theorem C18_submodule_inherits_concat : forall (d : list Z) (cli file : list (inst (list Z))) mp rest,
+  (forall i, In i (cli ++ file) -> is_applicable_to i (mp ++ rest) = true -> length (applicable_to i) <= length mp) ->
+  concat_get_value_from_instances d (from_option_list cli file) (mp ++ rest) =
+  concat_get_value_from_instances d (from_option_list cli file) mp.
+Proof. exact (@submodule_inherits_concat Z). Qed.
+Print Assumptions C18_submodule_inherits_concat.
+
+(* a setting that reaches the ancestor is never lost below it: the submodule never falls back to the default *)
+Theorem C18_submodule_never_falls_to_default : forall (L : list (inst Z)) mp rest,
+  chosen L mp <> None -> chosen L (mp ++ rest) <> None.
+Proof. exact (@submodule_never_falls_to_default Z). Qed.
+Print Assumptions C18_submodule_never_falls_to_default.
+
+Example C18_inherit_nonvacuous : exists l,
+  parse_main false ex_files = Ok l /\
+  forallb (fun i => implb (is_applicable_to i ([1%N; 4%N] ++ [9%N])) (Nat.leb (length (applicable_to i)) 2)) l = true /\
+  effective false ex_files [] 0 ([1%N; 4%N] ++ [9%N]) = Some (Some 8%Z) /\
+  effective false ex_files [] 0 ([1%N; 2%N] ++ [9%N]) = Some (Some 9%Z).
+Proof. exact ex_inherit. Qed.
+Print Assumptions C18_inherit_nonvacuous.
 
 Example C18_nonvacuous :
   effective false ex_files [] 0 [1%N; 2%N; 3%N] = Some (Some 9%Z) /\
